@@ -104,8 +104,9 @@ type Workload struct {
 	Run       func(w *W) // executes as the root task
 	MaxSteps  int
 	ClockJump int
-	Faulty    bool // fault-injecting family (reported separately in evidence)
-	CheckGID  bool // verify goroutine identity at every simrt entry (workloads whose library code sets finalizers)
+	Faulty    bool  // fault-injecting family (reported separately in evidence)
+	Cells     []int // radices of the leading Choose calls of Run: the configuration cells the thorough tier enumerates
+	CheckGID  bool  // verify goroutine identity at every simrt entry (workloads whose library code sets finalizers)
 }
 
 var registry []*Workload
@@ -219,10 +220,36 @@ func envIntCore(name string, def int) int {
 
 // RunOne executes one run of wl. A nil tape means search mode from seed.
 func RunOne(t *testing.T, wl *Workload, seed uint64, replay []int32, trace bool) *Outcome {
+	return RunOnePrefix(t, wl, seed, replay, nil, trace)
+}
+
+// NumCells is the number of configuration cells of a workload (1 if it declares none).
+func (wl *Workload) NumCells() int {
+	n := 1
+	for _, r := range wl.Cells {
+		n *= r
+	}
+	return n
+}
+
+// CellPrefix is the tape prefix (strategy draw first) that selects cell.
+func (wl *Workload) CellPrefix(cell int, strategy int) []int32 {
+	out := []int32{int32(strategy % len(strategyNames))}
+	for _, r := range wl.Cells {
+		out = append(out, int32(cell%r))
+		cell /= r
+	}
+	return out
+}
+
+// RunOnePrefix is RunOne with the leading decisions of a search run fixed.
+func RunOnePrefix(t *testing.T, wl *Workload, seed uint64, replay []int32, prefix []int32, trace bool) *Outcome {
 	out := &Outcome{Prop: wl.Prop, Workload: wl.Name, Seed: seed, Faults: map[string]int{}, Probes: map[string]int{}}
 	var tape *simrt.Tape
 	if replay != nil {
 		tape = simrt.NewReplayTape(replay)
+	} else if prefix != nil {
+		tape = simrt.NewSearchTapePrefix(seed, prefix)
 	} else {
 		tape = simrt.NewSearchTape(seed)
 	}
